@@ -389,12 +389,11 @@ fn tx_entry_id(v: &Value) -> String {
 pub(crate) fn run(opts: &Opts, report: &mut Report) {
     let thorough = opts.thorough();
     let env = Env::dummy();
-    let store_specs: Vec<(u64, u64)> = if thorough {
-        vec![(3, 1), (8, 2), (8, 3), (12, 4), (5, 5), (10, 6), (14, 7), (6, 8)]
-    } else {
-        vec![(3, 1), (8, 2)]
-    };
-    let limits: Vec<u32> = if thorough { vec![1, 2, 3, 5, 7, 10_000] } else { vec![1, 2, 10_000] };
+    let mut store_specs: Vec<(u64, u64)> = vec![(3, 1), (8, 2), (8, 3), (12, 4), (5, 5), (10, 6), (14, 7), (6, 8)];
+    if thorough {
+        store_specs.extend([(16, 9), (20, 10), (9, 11), (11, 12), (7, 13), (13, 14), (18, 15), (4, 16), (24, 17), (2, 18), (1, 19), (15, 20), (17, 21), (19, 22), (22, 23), (28, 24)]);
+    }
+    let limits: Vec<u32> = if thorough { vec![1, 2, 3, 4, 5, 7, 11, 10_000] } else { vec![1, 2, 3, 10_000] };
     let mut calls = 0u64;
     let mut queries = 0u64;
     let mut nonempty = 0u64;
